@@ -10,7 +10,7 @@
 //                                                      EVERY further event until the log is larger than S + window
 //   trace <outfile> <processNameIndex or -1> <mainThreadRecords:0|1> <nthreads>
 //     then per thread:  thread <nameIndex or -1> <nevents>  followed by nevents events:
-//       B <name> <cat|-1> | E | I <name> <cat|-1> | C <name> <value>
+//       B <name> <cat|-1> | E | I <name> <cat|-1> | C <name> <value> | M
 //   (names / categories / thread and process names are indices into fixed tables: the recorder caches
 //    strings by POINTER, so - as in real use - every distinct name must live at a stable distinct address)
 #include <cstdio>
@@ -63,6 +63,9 @@ static void record(const std::vector<Ev> &evs, int tname)
       break;
     case 'C':
       tracing::setCounter(NAMES[e.name], e.value);
+      break;
+    case 'M':
+      tracing::recordMemUse();  // two counter events with the process's memory figures
       break;
     }
   }
